@@ -130,6 +130,8 @@ pub fn check(property: &str, tier: &str, started: Instant) -> i32 {
     let mut violations = 0u64;
     let mut known_seen: Vec<String> = vec![];
     let mut minimised_budget = 6;
+    // minimisation is a service, not the verdict: at most 3 minutes of it per check
+    let min_deadline = started.elapsed().as_secs() + 180;
     for (k, f) in &agg.failures {
         if f.property != property {
             continue;
@@ -141,7 +143,7 @@ pub fn check(property: &str, tier: &str, started: Instant) -> i32 {
         }
         violations += 1;
         let h: History = serde_json::from_value(f.case.clone()).expect("history");
-        let (case, violation, minimised, evals) = if minimised_budget > 0 {
+        let (case, violation, minimised, evals) = if minimised_budget > 0 && started.elapsed().as_secs() < min_deadline {
             minimised_budget -= 1;
             let (m, used) = world_h::minimise(&h, property, &f.signature, 300);
             let o = run_history(f.seed, &m);
